@@ -277,7 +277,88 @@ def b7_created_names(prog, ctx):
     ctx.floor("C14 file-creating calls", n, 1)
 
 
+def b9_getline_capacity(prog, ctx, rule="B9"):
+    """B9: getline(&buf, &n, f) believes `n`: it only re-allocates when the line does not fit into n bytes.  The capacity announced at
+    the first call is the size the buffer was allocated with (or buf is NULL and n is 0)."""
+    n = 0
+    for f in list(prog.lib_functions()) + [g for g in prog.util_functions.values()]:
+        for c in f.calls(("getline", "getdelim")):
+            a = c.call_args()
+            if len(a) < 2 or a[0].strip().k != "UnaryOperator" or a[1].strip().k != "UnaryOperator":
+                continue
+            bname, nname = render(a[0].strip().children[0]), render(a[1].strip().children[0])
+            bdefs = [r for l, r, st in f.assignments() if (l["name"] if isinstance(l, dict) else render(l)) == bname and r is not None and not st.within(c)]
+            ndefs = [r for l, r, st in f.assignments() if (l["name"] if isinstance(l, dict) else render(l)) == nname and r is not None]
+            allocs = [r.strip() for r in bdefs if r.strip().k == "CallExpr" and r.strip().j.get("callee") in ("malloc", "calloc")]
+            n += 1
+            inst = "%s: %s" % (f.name, render(c)[:50])
+            if not allocs:
+                if all(r.is_null_const() for r in bdefs) and all(r.const_value() == 0 for r in ndefs):
+                    ctx.ok(rule, inst, c.where, "starts with no buffer and capacity 0")
+                else:
+                    ctx.inconclusive(rule, inst, c.where, "origin of the buffer not understood")
+                continue
+            sizes = []
+            for al in allocs:
+                aa = al.call_args()
+                v = aa[0].const_value() if al.j["callee"] == "malloc" else (None if None in (aa[0].const_value(), aa[1].const_value()) else aa[0].const_value() * aa[1].const_value())
+                sizes.append(v)
+            caps = [r.const_value() for r in ndefs]
+            if None in sizes or None in caps or not caps:
+                ctx.inconclusive(rule, inst, c.where, "allocation size / announced capacity not constant")
+            elif max(caps) > min(sizes):
+                ctx.fail(rule, inst, c.where,
+                         "the buffer has %d bytes but getline() is told it has %d: a line longer than the buffer and shorter than the announced capacity is "
+                         "written past its end" % (min(sizes), max(caps)), key="getline-capacity:%s" % f.name)
+            else:
+                ctx.ok(rule, inst, c.where, "announced capacity %d <= allocated %d" % (max(caps), min(sizes)))
+    ctx.counts["%s getline sites" % rule] = n
+
+
+def b10_truncation_tests(prog, ctx, rule="B10"):
+    """B10: where the result of snprintf(buf, N, ..) is tested for truncation the test is `r >= N` (the result is the length the text
+    WOULD have had: r == N already means one byte was cut).  `r > N` lets the name through that is exactly one byte too long."""
+    n = 0
+    for f in list(prog.lib_functions()) + [g for g in prog.util_functions.values()]:
+        cfg = f.cfg
+        for c in f.calls("snprintf"):
+            up = c.up()
+            var = up.j["decls"][0]["name"] if up is not None and up.k == "DeclStmt" else (
+                render(up.children[0]) if up is not None and up.k == "BinaryOperator" and up.j.get("op") == "=" else None)
+            if var is None:
+                continue
+            size = c.call_args()[1]
+            sz_t, sz_v = render(size), size.const_value()
+            for (b, i, s2) in cfg.edges():
+                lit = cfg.edge_lit(b, i)
+                if lit is None or lit.kind != "lt" or cfg.blocks[b].cond is None or not cfg.node_dominates(c, cfg.blocks[b].cond) or i != 0:
+                    continue
+                l_t, r_t = render(lit.lhs.strip()), render(lit.rhs.strip())
+                l_v, r_v = lit.lhs.const_value(), lit.rhs.const_value()
+
+                def is_size(t, v):
+                    return t == sz_t or (sz_v is not None and v == sz_v)
+                # a result equal to the size and a result above it must go the same way: both mean "cut".  (edge_lit normalises to `<`.)
+                if l_t == var and is_size(r_t, r_v):
+                    at_eq, above = (False == lit.pol), (False == lit.pol)         # r < N is false for r == N and for r == N + 1
+                elif r_t == var and is_size(l_t, l_v):
+                    at_eq, above = (False == lit.pol), (True == lit.pol)          # N < r is false for r == N, true for r == N + 1
+                else:
+                    continue
+                if at_eq == above:
+                    n += 1
+                    ctx.ok(rule, "%s: truncation test of %s" % (f.name, render(c)[:40]), cfg.blocks[b].cond.where, "`%s` against the size given to snprintf: a result equal to %s is treated like a larger one" % (var, sz_t))
+                else:
+                    n += 1
+                    ctx.fail(rule, "%s: truncation test of %s" % (f.name, render(c)[:40]), cfg.blocks[b].cond.where,
+                             "`%s`: a result of %s equal to %s - the text cut by exactly one byte - passes as complete; the file named by the cut "
+                             "text is used (opened, removed) instead of the one asked for" % (render(cfg.blocks[b].cond)[:60], var, sz_t), key="truncation-test:%s:%s" % (f.name, var))
+    ctx.counts["%s truncation tests" % rule] = n
+
+
 def run(prog, ctx):
+    b9_getline_capacity(prog, ctx)
+    b10_truncation_tests(prog, ctx)
     b7_created_names(prog, ctx)
     la, ls, lf = judge(prog, ctx, False)
     ua, us, uf = judge(prog, ctx, True)
